@@ -54,6 +54,26 @@ Section FreshOther.
         destruct (sget r (cur ++ [c])) as [[| |t]|]; try (destruct rest; auto; fail).
         destruct rest as [|x y]; [destruct fl; auto|]; (destruct L; auto; destruct t; auto).
   Qed.
+  (* a walk that did not end at the fresh place and did not fail never looked at it *)
+  Lemma walk_fresh_same R : forall L cur cs,
+    walk L r fl cur cs = R -> (forall e, R <> WErr e) -> R <> WAt d nm None ->
+    walk L (upd r (d ++ [nm]) (Some A)) fl cur cs = R.
+  Proof.
+    set (r' := upd r (d ++ [nm]) (Some A)).
+    apply (walk_ind r fl (fun L cur cs =>
+             walk L r fl cur cs = R -> (forall e, R <> WErr e) -> R <> WAt d nm None -> walk L r' fl cur cs = R)).
+    - intros L cur. rewrite !walk_nil. auto.
+    - intros L cur c rest IH. rewrite !walk_cons. unfold wstep in *.
+      destruct (str_eqb c DOT1). { destruct rest; [auto|]. apply IH. reflexivity. }
+      destruct (str_eqb c DOTDOT). { destruct rest; [auto|]. apply IH. reflexivity. }
+      destruct (cpath_eq_dec (cur ++ [c]) (d ++ [nm])) as [E|N].
+      + rewrite E. unfold sget at 1. rewrite Hnone. simpl option_map. cbv iota.
+        apply app_inj_tail in E as [-> ->].
+        destruct rest; intros <- H1 H2; exfalso; [apply H2; reflexivity|eapply H1; reflexivity].
+      + unfold r'. rewrite (sget_fresh_other r d nm A Hnone Hpar Hleaf _ N).
+        destruct (sget r (cur ++ [c])) as [[| |t]|]; try (destruct rest; auto; fail).
+        destruct rest as [|x y]; [destruct fl; [|auto]|]; (destruct L; [auto|]; destruct t; [auto|]; apply IH; reflexivity).
+  Qed.
 End FreshOther.
 
 (* ---- File::open ------------------------------------------------------------------------------------ *)
@@ -175,16 +195,22 @@ Proof.
     destruct k2 as [[| |t2]|]; try discriminate; apply MOVE; auto.
 Qed.
 
-(* File::rename, with or without failIfExists: on success what `from` named is at `to`, intact *)
-Lemma rename_moves st from to fie st' d1 n1 k1 :
-  f_rename st from to fie = (st', true) -> resolve st false from = WAt d1 n1 (Some k1) ->
-  exists x d2 n2 k2,
-    get (root st) (d1 ++ [n1]) = Some x /\ resolve st false to = WAt d2 n2 k2 /\
-    get (root st') (d2 ++ [n2]) = Some x /\ cwd st' = cwd st /\
-    (fie = true -> k2 = None).
+(* File::rename, with or without failIfExists: on success `from` named something, and the tree
+   afterwards is the tree before with that node, whole, taken out and put where `to` points;
+   with failIfExists nothing was there *)
+Lemma rename_exact st from to fie st' :
+  f_rename st from to fie = (st', true) ->
+  exists d1 n1 x d2 n2 k2,
+    resolve st false from = WAt d1 n1 (Some (shallow x)) /\ get (root st) (d1 ++ [n1]) = Some x /\
+    resolve st false to = WAt d2 n2 k2 /\ (fie = true -> k2 = None) /\
+    ((d1 ++ [n1] = d2 ++ [n2] /\ st' = st) \/
+     (d1 ++ [n1] <> d2 ++ [n2] /\
+      st' = set_root st (upd (upd (root st) (d1 ++ [n1]) None) (d2 ++ [n2]) (Some x)) /\
+      get (root st') (d2 ++ [n2]) = Some x)).
 Proof.
   unfold f_rename. destruct fie.
-  - destruct (k_open st to true false true true false) as [st1 [f|e]] eqn:O; [|discriminate].
+  - destruct (k_lstat st from) as [k0|] eqn:LS; [|discriminate].
+    destruct (k_open st to true false true true false) as [st1 [f|e]] eqn:O; [|discriminate].
     unfold k_open in O. simpl negb in O.
     destruct (resolve st false to) as [e0|d nm [[| |t]|]|d dot] eqn:R; try discriminate.
     simpl andb in O. unfold parent_is_dir in O.
@@ -193,58 +219,93 @@ Proof.
     pose proof (resolve_at_none _ _ _ _ _ R) as Gn.
     set (st1 := set_root st (upd (root st) (d ++ [nm]) (Some (NFile [])))).
     destruct (k_rename st1 from to) as [st2 [e|]] eqn:K; [discriminate|].
-    intros H R1. inversion H; subst. clear H.
-    assert (R1' : resolve st1 false from = WAt d1 n1 (Some k1)).
-    { unfold resolve in *. destruct from; [discriminate|]. cbn [root cwd st1 set_root].
-      apply walk_fresh_other; eauto. }
+    intro H. inversion H; subst. clear H.
+    (* `from` resolves in the tree with the placeholder as it did before *)
+    assert (Rsame : resolve st1 false from = resolve st false from).
+    { unfold k_lstat in LS. unfold resolve in *. destruct from as [|z from]; [discriminate|].
+      cbn [root cwd st1 set_root].
+      apply (walk_fresh_same (root st) d nm (NFile []) false Gn (ex_intro _ es G) (leaf_file [])); auto.
+      - intros e X. rewrite X in LS. discriminate.
+      - intro X. rewrite X in LS. discriminate. }
     assert (R2' : resolve st1 false to = WAt d nm (Some SFile)).
-    { unfold resolve in *. destruct to; [discriminate|]. cbn [root cwd st1 set_root].
+    { clear Rsame. unfold resolve in R |- *. destruct to; [discriminate R|]. cbn [root cwd st1 set_root].
       apply (walk_fresh (root st) d nm (NFile []) false Gn (ex_intro _ es G) (leaf_file []) (or_introl eq_refl)); auto. }
+    destruct (resolve st1 false from) as [e1|d1 n1 [k1|]|d0 dot0] eqn:R1';
+      try (unfold k_rename in K; rewrite R1' in K; discriminate).
+    symmetry in Rsame. rename Rsame into R1.
     destruct (k_rename_moves st1 from to st' d1 n1 k1 K R1') as (x & d2 & n2 & k2 & G1 & R2 & C).
     rewrite R2' in R2. inversion R2; subst d2 n2 k2.
-    pose proof (resolve_at_some _ _ _ _ _ _ R1) as S1. apply sget_some_get in S1 as (x0 & G0 & _).
+    pose proof (resolve_at_some _ _ _ _ _ _ R1) as S1. apply sget_some_get in S1 as (x0 & G0 & Sx0).
     assert (NE : d1 ++ [n1] <> d ++ [nm]) by (intro X; rewrite X in G0; congruence).
-    (* the node `from` names is the same with the placeholder in place *)
+    assert (P1 : is_prefix (d ++ [nm]) (d1 ++ [n1]) = false).
+    { destruct (is_prefix (d ++ [nm]) (d1 ++ [n1])) eqn:P1; auto.
+      apply is_prefix_true in P1 as [t E]. rewrite E in G0. rewrite get_app, Gn in G0. discriminate. }
+    assert (P2 : is_prefix (d1 ++ [n1]) (d ++ [nm]) = false).
+    { destruct (is_prefix (d1 ++ [n1]) (d ++ [nm])) eqn:P2; auto.
+      (* `from` is a directory above the placeholder: moving it into itself is refused *)
+      exfalso. destruct C as [[C _]|(_ & _ & C)]; [contradiction|].
+      apply is_prefix_true in P2 as [t E].
+      unfold k_rename in K. rewrite R1', R2' in K. unfold parent_is_dir in K.
+      assert (SD : sget (root st1) d = Some SDir).
+      { cbn [root st1 set_root]. rewrite sget_upd_other.
+        - unfold sget. rewrite G. reflexivity.
+        - destruct d; discriminate.
+        - destruct (is_prefix (d ++ [nm]) d) eqn:Q; auto. apply is_prefix_true in Q as [u Q].
+          rewrite <- app_assoc in Q. rewrite <- (app_nil_r d) in Q at 1. apply app_inv_head in Q. discriminate. }
+      rewrite SD in K. cbn [negb] in K.
+      destruct (cpath_eqb (d1 ++ [n1]) (d ++ [nm])) eqn:CE; [apply cpath_eqb_true in CE; contradiction|].
+      rewrite G1 in K.
+      assert (KD : k1 = SDir).
+      { destruct t as [|c t]; [rewrite app_nil_r in E; symmetry in E; contradiction|].
+        pose proof G as G'.
+        assert (PD : is_prefix (d1 ++ [n1]) d = true).
+        { clear - E. revert E. generalize (d1 ++ [n1]) as a. intros a E.
+          assert (exists u, d = a ++ u) as [u ->].
+          { destruct (@exists_last _ (c :: t)) as (u & z & X); [discriminate|].
+            rewrite X in E. rewrite app_assoc in E. apply app_inj_tail in E as [E _]. eauto. }
+          apply is_prefix_app. }
+        apply is_prefix_true in PD as [u ->]. rewrite get_app, G0 in G'.
+        apply resolve_at_some in R1. unfold sget in R1. rewrite G0 in R1. simpl in R1. inversion R1.
+        destruct x0; simpl in *; auto; destruct u; simpl in G'; try discriminate. }
+      rewrite KD in K. rewrite E in K at 1. rewrite is_prefix_app in K. discriminate. }
     assert (X : x = x0).
-    { pose proof G1 as G1f. cbn [root st1 set_root] in G1.
-      destruct (is_prefix (d ++ [nm]) (d1 ++ [n1])) eqn:P1.
-      - apply is_prefix_true in P1 as [t E]. rewrite E in G0. rewrite get_app, Gn in G0. discriminate.
-      - destruct (is_prefix (d1 ++ [n1]) (d ++ [nm])) eqn:P2.
-        + (* `from` is a directory above the placeholder: moving it into itself is refused *)
-          exfalso. destruct C as [[C _]|(_ & _ & C)]; [contradiction|].
-          apply is_prefix_true in P2 as [t E].
-          unfold k_rename in K. rewrite R1', R2' in K. unfold parent_is_dir in K.
-          assert (SD : sget (root st1) d = Some SDir).
-          { cbn [root st1 set_root]. rewrite sget_upd_other.
-            - unfold sget. rewrite G. reflexivity.
-            - destruct d; discriminate.
-            - destruct (is_prefix (d ++ [nm]) d) eqn:Q; auto. apply is_prefix_true in Q as [u Q].
-              rewrite <- app_assoc in Q. rewrite <- (app_nil_r d) in Q at 1. apply app_inv_head in Q. discriminate. }
-          rewrite SD in K. cbn [negb] in K.
-          destruct (cpath_eqb (d1 ++ [n1]) (d ++ [nm])) eqn:CE; [apply cpath_eqb_true in CE; contradiction|].
-          rewrite G1f in K.
-          assert (KD : k1 = SDir).
-          { destruct t as [|c t]; [rewrite app_nil_r in E; symmetry in E; contradiction|].
-            pose proof G as G'.
-            assert (PD : is_prefix (d1 ++ [n1]) d = true).
-            { clear - E. revert E. generalize (d1 ++ [n1]) as a. intros a E.
-              assert (exists u, d = a ++ u) as [u ->].
-              { destruct (@exists_last _ (c :: t)) as (u & z & X); [discriminate|].
-                rewrite X in E. rewrite app_assoc in E. apply app_inj_tail in E as [E _]. eauto. }
-              apply is_prefix_app. }
-            apply is_prefix_true in PD as [u ->]. rewrite get_app, G0 in G'.
-            apply resolve_at_some in R1. unfold sget in R1. rewrite G0 in R1. simpl in R1. inversion R1.
-            destruct x0; simpl in *; auto; destruct u; simpl in G'; try discriminate. }
-          subst k1. rewrite E in K at 1. rewrite is_prefix_app in K. discriminate.
-        + rewrite get_upd_unrelated in G1 by auto. congruence. }
-    subst x0. exists x, d, nm, None. repeat split; auto.
-    + destruct C as [[C _]|(_ & _ & C)]; [contradiction|exact C].
-    + destruct C as [[_ ->]|(_ & -> & _)]; reflexivity.
+    { cbn [root st1 set_root] in G1. rewrite get_upd_unrelated in G1 by auto. congruence. }
+    subst x0. exists d1, n1, x, d, nm, None. rewrite Sx0. repeat split; auto.
+    right. destruct C as [[C _]|(_ & C1 & C2)]; [contradiction|]. split; auto. split; auto.
+    rewrite C1. unfold st1. rewrite set_root_twice. f_equal. cbn [root set_root].
+    rewrite (upd_none_comm (d1 ++ [n1]) (root st) (d ++ [nm]) (Some (NFile []))) by auto.
+    rewrite upd_upd_same. reflexivity.
   - destruct (k_rename st from to) as [st1 [e|]] eqn:K; [discriminate|].
-    intros H R1. inversion H; subst.
+    intro H. inversion H; subst.
+    destruct (resolve st false from) as [e1|d1 n1 [k1|]|d0 dot0] eqn:R1;
+      try (unfold k_rename in K; rewrite R1 in K; discriminate).
     destruct (k_rename_moves st from to st' d1 n1 k1 K R1) as (x & d2 & n2 & k2 & G1 & R2 & C).
-    exists x, d2, n2, k2. repeat split; auto.
-    + destruct C as [[C ->]|(_ & _ & C)]; [rewrite <- C; exact G1|exact C].
-    + destruct C as [[_ ->]|(_ & -> & _)]; reflexivity.
-    + discriminate.
+    pose proof (resolve_at_some _ _ _ _ _ _ R1) as S1. unfold sget in S1. rewrite G1 in S1.
+    simpl in S1. inversion S1; subst k1.
+    exists d1, n1, x, d2, n2, k2. repeat split; auto. discriminate.
+Qed.
+
+(* the weaker, older reading: what `from` named is found at `to` *)
+Lemma rename_moves st from to fie st' d1 n1 k1 :
+  f_rename st from to fie = (st', true) -> resolve st false from = WAt d1 n1 (Some k1) ->
+  exists x d2 n2 k2,
+    get (root st) (d1 ++ [n1]) = Some x /\ resolve st false to = WAt d2 n2 k2 /\
+    get (root st') (d2 ++ [n2]) = Some x /\ cwd st' = cwd st /\
+    (fie = true -> k2 = None).
+Proof.
+  intros H R1. destruct (rename_exact _ _ _ _ _ H) as (d1' & n1' & x & d2 & n2 & k2 & R1' & G1 & R2 & F & C).
+  rewrite R1 in R1'. inversion R1'; subst d1' n1' k1.
+  exists x, d2, n2, k2. repeat split; auto.
+  - destruct C as [[C ->]|(_ & _ & C)]; [rewrite <- C; exact G1|exact C].
+  - destruct C as [[_ ->]|(_ & -> & _)]; reflexivity.
+Qed.
+
+(* a successful rename with failIfExists means the source existed: the repaired case
+   rename(x, x, true) for a missing x *)
+Lemma rename_missing_source_fails st from to fie :
+  k_lstat st from = None -> exists st', f_rename st from to fie = (st', false).
+Proof.
+  intro L. destruct (f_rename st from to fie) as [st' [|]] eqn:H; [|eauto].
+  destruct (rename_exact _ _ _ _ _ H) as (d1 & n1 & x & _ & _ & _ & R1 & _).
+  unfold k_lstat in L. rewrite R1 in L. discriminate.
 Qed.
